@@ -1,6 +1,7 @@
 package main
 
 import (
+	"golang.org/x/tools/go/ssa"
 	"encoding/json"
 	"fmt"
 	"html"
@@ -13,8 +14,10 @@ import (
 // decides a property.
 func validateStubs(ld *Loaded, cfg *Config) (map[string]int, error) {
 	tt := NewTermTable()
-	in := &Interp{prog: ld.prog, ld: ld, tt: tt, cfg: cfg, maxSteps: 1 << 30}
+	in := &Interp{prog: ld.prog, ld: ld, tt: tt, cfg: cfg, maxSteps: 1 << 30, fnInfos: map[*ssa.Function]*fnInfo{}, fnMetas: map[*ssa.Function]*fnMeta{}}
 	in.pcSet = map[int]bool{}
+	in.pcEq = map[int]uint64{}
+	in.pcNe = map[int][]uint64{}
 	in.inputKinds = map[string]string{}
 	rep := map[string]int{}
 	str := func(v Value) string {
